@@ -737,6 +737,27 @@ class Explorer:
                 return
         if self.watch and any(name.startswith(w) or deff.startswith(w) for w in self.watch):
             ev = ev | {('callargs', name, tuple(args))}
+        if name in ('core::option::Option::<T>::or_else', 'core::option::Option::<T>::or',
+                    'core::option::Option::<T>::unwrap_or_else', 'core::option::Option::<T>::unwrap_or') and len(args) == 2:
+            v = strip(args[0])
+            alt = strip(args[1])
+            lazy = name.endswith('_else')
+            unwrap = 'unwrap' in name
+            branches = []
+            if not (isinstance(v, A) and v.name == 'None'):
+                some = v if isinstance(v, A) else A('core::option::Option', 1, 'Some', ((0, TOP),))
+                branches.append('some')
+                cont(read_proj(some, [('f', 0)]) if unwrap else some, ev | {('call', name)})
+            if not (isinstance(v, A) and v.name == 'Some'):
+                if not lazy:
+                    cont(args[1], ev | {('call', name)})
+                elif isinstance(alt, C) and self.facts.fn(alt.deff) is not None and depth < self.inline_depth + 2:
+                    self._inline(self.facts.fn(alt.deff), [args[1]], ev | {('call', name)}, cont, depth, alt.deff)
+                elif isinstance(alt, F) and self.facts.fn(alt.res or alt.deff) is not None and depth < self.inline_depth + 2:
+                    self._inline(self.facts.fn(alt.res or alt.deff), [], ev | {('call', name)}, cont, depth, alt.res or alt.deff)
+                else:
+                    cont(TOP, ev | {('call', name), ('callparam', 'or_else')})
+            return
         m = self.model_call(fd, args, depth)
         if m is not None:
             cont(m, ev | {('call', name)})
